@@ -859,7 +859,9 @@ R_Create(p) ==
 R_FailCur(p) ==
   /\ pc[p] = "R_FailCur" /\ Budgets
   /\ LET o == op[p]  t == [pc |-> "R_FailNew", op |-> o] IN
-     StoreWrite(p, "update", o.orig, store[o.orig].st # "none", WriteRec(store, o.orig, MemRec(o, o.orig), "superseded"), t, t, t)
+     \* only a deployed revision is superseded; one that never became deployed keeps the status it was read with
+     StoreWrite(p, "update", o.orig, store[o.orig].st # "none",
+                WriteRec(store, o.orig, MemRec(o, o.orig), IF o.origSt = "deployed" THEN "superseded" ELSE o.origSt), t, t, t)
 
 R_FailNew(p) ==
   /\ pc[p] = "R_FailNew" /\ Budgets
